@@ -66,6 +66,8 @@ def check(run):
         C03.flags(R)         # header bits as the peer reads them
         C03.mask(R)          # the key in the frame is the key the payload was masked with: drawn per frame, not from
                              # state shared between the sending threads
+        C03.argcheck(R)      # only immutable bytes / text are accepted ...
+        C03.private(R)       # ... and what is masked in place is a private copy: a buffer two senders share is not scrambled
     from . import C06
     with R.as_rule('C11.wireorder'):
         C06.wiring(R)        # the shared deflate context is configured as negotiated (reset flags / windows not crossed)
